@@ -1,4 +1,5 @@
 import ComposeVerif.Model.C01Cycles
+import ComposeVerif.Model.C01Reset
 /-!
 # C01 — statements the unchanged tree falsifies (proved negations, concrete witnesses)
 
@@ -56,5 +57,87 @@ theorem extends_never_panics_false :
         (Ext.resolve fs main fuel svcs name []).1 ≠ .panic s) := by
   intro h
   exact h extWitnessFS "m" 3 extWitnessSvcs "a" "paths.absExtendsPath:value.(string)" (by decide)
+
+/-! ## alias expansion: a merge key that points at an enclosing anchor is followed forever
+
+`checkForCycle` exempts visits "at the exact same path" and any path that contains a merge key; a `<<: *x`
+inside `&x` is visited at the same (merge-stripped) path every time, so neither test ever fires. -/
+
+section ResetWitness
+open CV.C01.Reset
+
+/-- `&x {<<: *x}` as an arena (the document root is the anchored mapping itself) -/
+def resetWitness : List Node := [.map "" [("<<", 1)], .alias 0]
+
+def WInv (st : St) : Prop := st.arena = resetWitness ∧ ∀ p ∈ visitedOf 0 st.visited, p = ["<<"]
+
+theorem visitedOf_setVisited (n : Nat) (ps : List P) : ∀ v, visitedOf n (setVisited n ps v) = ps
+  | [] => by simp [setVisited, visitedOf]
+  | (k, qs) :: r => by
+    unfold setVisited
+    split
+    · rename_i h; simp [visitedOf, h]
+    · rename_i h; simp only [visitedOf, h, if_false]; exact visitedOf_setVisited n ps r
+
+theorem check_ok (st : St) (h : WInv st) : ∃ st', checkForCycle st 0 ["<<"] = .ok st' ∧ WInv st' := by
+  have hany : (visitedOf 0 st.visited).any (fun prev =>
+      prev ≠ ["<<"] && !("<<" ∈ prev || "<<" ∈ (["<<"] : P)) &&
+      (properPrefix prev ["<<"] || properPrefix ["<<"] prev) && !diffServices ["<<"] prev) = false := by
+    rw [List.any_eq_false]
+    intro p hp
+    have := h.2 p hp
+    subst this
+    simp
+  refine ⟨{ st with visited := setVisited 0 (visitedOf 0 st.visited ++ [["<<"]]) st.visited }, ?_, ?_⟩
+  · unfold checkForCycle
+    simp only [hany]
+    rfl
+  · refine ⟨h.1, ?_⟩
+    intro p hp
+    simp only [visitedOf_setVisited] at hp
+    rcases List.mem_append.mp hp with h' | h'
+    · exact h.2 p h'
+    · simpa using h'
+
+theorem resetWitness_loops : ∀ (fuel : Nat) (st : St), WInv st →
+    resolve fuel st 0 ["<<"] = .error .outOfFuel ∧
+    ∀ p, normPath p = ["<<"] → resolve fuel st 1 p = .error .outOfFuel
+  | 0, _, _ => ⟨rfl, fun _ _ => rfl⟩
+  | fuel + 1, st, h => by
+    obtain ⟨ih0, ih1⟩ := resetWitness_loops fuel st h
+    obtain ⟨st', hck, hinv'⟩ := check_ok st h
+    obtain ⟨ih0', _⟩ := resetWitness_loops fuel st' hinv'
+    refine ⟨?_, ?_⟩
+    · unfold resolve
+      simp only [normPath, h.1, resetWitness, List.getElem?_cons_zero, Node.tag]
+      have e1 : ¬ ("" = "!reset") := by decide
+      have e2 : ¬ ("" = "!override") := by decide
+      have ih1' := ih1 ["<<", "<<"] (by decide)
+      simp only [e1, e2, List.not_mem_nil, ↓reduceIte, resolveEntries, List.cons_append, List.nil_append, ih1']
+    · intro p hn
+      unfold resolve
+      simp only [hn, h.1, resetWitness, List.getElem?_cons_succ, List.getElem?_cons_zero, hck]
+      exact ih0'
+
+
+/-- full-strength "alias expansion terminates" is FALSE: on `&x {<<: *x}` no amount of fuel suffices
+(real code: the loader never returns; key `hang@cycle/alias-self-merge`, `hang@reset/alias-self-merge`) -/
+theorem alias_resolution_total_false :
+    ¬ (∀ (arena : List Node) (root : Nat), ∃ n, ∀ fuel, n ≤ fuel → Reset.run arena root fuel ≠ .error .outOfFuel) := by
+  intro h
+  obtain ⟨n, hn⟩ := h resetWitness 0
+  apply hn (n + 2) (by omega)
+  have hinv : WInv { arena := resetWitness, visited := [], paths := [] } := ⟨rfl, by intro p hp; cases hp⟩
+  have h1 := (resetWitness_loops (n + 1) _ hinv).2 ["<<"] (by decide)
+  have e1 : ¬ ("" = "!reset") := by decide
+  have e2 : ¬ ("" = "!override") := by decide
+  unfold Reset.run
+  unfold resolve
+  simp only [normPath, resetWitness, List.getElem?_cons_zero, Node.tag, e1, e2, ↓reduceIte, resolveEntries,
+    List.nil_append]
+  simp only [resetWitness] at h1
+  simp only [h1]
+
+end ResetWitness
 
 end CV.C01.Neg
